@@ -1,5 +1,6 @@
 #![allow(dead_code)]
 mod gen;
+mod likely;
 mod model;
 mod obs;
 mod props;
@@ -19,6 +20,13 @@ struct Prop {
 
 fn table() -> Vec<Prop> {
     vec![
+    Prop {
+        id: "C01",
+        run: props::c01::run,
+        replay: props::c01::replay,
+        rule: props::c01::RULE,
+        assumptions: &["a hang is reported only when one input stalls a private child process twice for 10 s (normal cases take microseconds); any other time-out is inconclusive", "workers run with RLIMIT_AS = 2 GiB (single-case children 1 GiB)"],
+    },
     Prop {
         id: "C02",
         run: props::c02::run,
@@ -54,11 +62,23 @@ fn main() {
     let seed: u64 = std::env::var("VERIF_SEED").ok().and_then(|s| s.trim().parse::<i64>().ok()).map(|v| v as u64).unwrap_or(0);
     let verif = PathBuf::from(std::env::var("VERIF_DIR").unwrap_or("/verif".into()));
     let repo = PathBuf::from(std::env::var("VERIF_REPO").unwrap_or("/repo".into()));
-    let tier = match args[2].as_str() {
+    let submode = args[2].starts_with("--") && args[2] != "--replay";
+    let tier = match (if submode { args.get(3).map(|s| s.as_str()).unwrap_or("quick") } else { args[2].as_str() }) {
         "thorough" => Tier::Thorough,
         _ => Tier::Quick,
     };
     let cfg = Cfg { prop: id.clone(), tier, seed, verif, repo, start: Instant::now() };
+    if submode && id == "C01" {
+        let rest: Vec<String> = args[4..].to_vec();
+        let code = match args[2].as_str() {
+            "--worker" => props::c01::worker(&cfg, &rest),
+            "--chunk" => props::c01::chunk_mode(&cfg, &rest),
+            "--one" => props::c01::one_mode(&cfg, &rest),
+            "--long" => props::c01::long_mode(&cfg, &rest),
+            _ => 2,
+        };
+        std::process::exit(code);
+    }
     let Some(p) = table().into_iter().find(|p| p.id == id) else {
         eprintln!("unknown property {id}");
         std::process::exit(2);
